@@ -72,6 +72,7 @@ type vfWorld struct {
 
 	log        []vfRec
 	logOn      bool
+	logBuiltin bool // reference: also record applications of built-in operators
 	pCalls     int
 	qCalls     int
 	useAvail   bool
@@ -474,6 +475,16 @@ func (w *vfWorld) refApply(op string, args []Value) (Value, error) {
 	}
 	res, fails, known := refOp(op, args)
 	vfAssume(known)
+	if w.logBuiltin {
+		rec := vfRec{kind: recCall, name: op, nargs: len(args), failed: fails, res: res}
+		if len(args) > 0 {
+			rec.a0 = args[0]
+		}
+		if len(args) > 1 {
+			rec.a1 = args[1]
+		}
+		w.record(rec)
+	}
 	if fails {
 		return nil, errRefBuiltin
 	}
